@@ -51,6 +51,7 @@ var partPool = []string{
 	"", "", "user", "alice", "pa:ss", ":", "::", "p@ß", "密码", "a b", "x\"y", "back\\slash",
 	"<tok&en>", "line\nbreak", "tab\there", " ", "\U0001F511key", "eyJhbGciOiJSUzI1NiJ9.e30.c2ln", "=", "dXNlcjpwYXNz",
 	strings.Repeat("long", 40), "\u0001ctl", "trailing:", ":leading", "é",
+	"nul\x00byte", "ls\u2028ps\u2029", "del\x7f", "\ufffd", "\U0010ffff",
 }
 
 func genPart(r *common.Rand) string {
